@@ -457,6 +457,13 @@ pub fn byte_pool() -> &'static Vec<(String, Vec<u8>)> {
 
 /// Hand-shaped components for what WIT cannot say (also used by other properties).
 pub const SHAPED_WAT: &[(&str, &str)] = &[
+    ("module-after-func", r#"(component (import "f" (func)) (import "m" (core module (import "a" "b" (func)) (export "c" (func)))) (export "f2" (func 0)))"#),
+    ("two-modules", r#"(component (import "first" (core module (export "a" (func)))) (import "second" (core module (export "b" (func (param i32))))))"#),
+    ("module-export-next-to-interface", r#"(component (import "i" (instance (export "f" (func)))) (core module $m (func (export "x"))) (export "m" (core module $m)) (export "i2" (instance 0)))"#),
+    ("empty-component-type-export", r#"(component (type (component)) (export "empty" (type 0)))"#),
+    ("component-type-export-two", r#"(component (type (component (export "a" (func)) (export "b" (func)))) (export "two" (type 0)))"#),
+    ("component-type-export-non-interface", r#"(component (type (component (export "f" (func)))) (export "one" (type 0)) (type (instance)) (export "inst" (type 1)))"#),
+    ("url-and-dep-names", r#"(component (import "url=<https://user@example.com/x>" (func)) (import "locked-dep=<a:b/c@1.0.0>" (func)) (import "relative-url=<x/y@z>" (func)) (import "integrity=<sha256-abc>" (func)) (export "f" (func 0)))"#),
     ("empty-component", "(component)"),
     ("core-module", "(module (func (export \"f\")))"),
     ("bare-func", "(component (import \"f\" (func)) (export \"g\" (func 0)))"),
@@ -849,6 +856,7 @@ pub fn conflict_docs() -> (Vec<(String, Option<semver::Version>, Vec<u8>)>, Vec<
         ("g", r#"(component (import "f" (func)) (import "foo:dep/types@1.2.0" (instance (export "t" (type (sub resource))))))"#),
         ("h", r#"(component (import "f" (func (param "x" u32))) (import "foo:dep/types@1.0.0" (instance (type $u (record (field "a" u8))) (export "t" (type (eq $u))))))"#),
         ("i", r#"(component (import "f" (instance)) (import "foo:dep/types@1.0.1" (component)))"#),
+        ("u", r#"(component (import "url=<https://user@example.com/x>" (func)) (import "locked-dep=<a:b/c@1.0.0>" (func)) (import "unlocked-dep=<a:b/x@{>=1.0.0}>" (func)) (import "a:b/x@1.0.0" (instance)))"#),
     ];
     let pkgs: Vec<(String, Option<semver::Version>, Vec<u8>)> = wats.iter().map(|(n, w)| (format!("foo:{n}"), None, wat::parse_str(w).unwrap_or_else(|e| {
         eprintln!("BROKEN-CHECK: conflict wat {n} does not assemble: {e}");
@@ -867,6 +875,12 @@ pub fn conflict_docs() -> (Vec<(String, Option<semver::Version>, Vec<u8>)>, Vec<
                 }
             }
         }
+    }
+    // argument names given as identifiers against extern names with `@` and `/` in unusual places
+    for arg in ["x", "c", "example", "f", "x@1"] {
+        docs.push(format!("package test:comp;\nimport f: func();\nlet i = new foo:u {{ {arg}: f, ... }};\n"));
+        docs.push(format!("package test:comp;\nimport {arg}: func();\nlet i = new foo:u {{ {arg}, ... }};\n"));
+        docs.push(format!("package test:comp;\nlet i = new foo:u {{ ... }};\nlet j = i.{arg};\n"));
     }
     // explicit imports on the semver track of implicit (or other explicit) imports, with every kind
     let tys = ["func()", "func(x: u32)", "interface { f: func(); }", "interface { f: func(x: u32); }"];
